@@ -45,6 +45,10 @@ def _run_one(arg):
     return r
 
 
+def _run_chunk(chunk):
+    return [_run_one(c) for c in chunk]
+
+
 def main():
     ap = argparse.ArgumentParser()
     ap.add_argument('pid')
@@ -71,10 +75,14 @@ def main():
         # cases not reached are reported (`not_evaluated`), cases that hit the per-case limit are `terminates` failures
         budget = float(os.environ.get('VT_BOUNDED_BUDGET', '900' if a.tier == 'quick' else '5400'))
         with mp.Pool(a.jobs) as pool:
-            it = pool.imap_unordered(_run_one, [(a.pid, d) for d in descs], chunksize=max(1, len(descs) // (a.jobs * 8)))
+            cs = max(1, len(descs) // (a.jobs * 8))
+            args = [(a.pid, d) for d in descs]
+            it = pool.imap_unordered(_run_chunk, [args[i:i + cs] for i in range(0, len(args), cs)])
             while True:
                 try:
-                    results.append(it.next(timeout=max(1.0, budget - (time.time() - t0))))
+                    if time.time() - t0 > budget:
+                        raise mp.TimeoutError()
+                    results.extend(it.next(timeout=max(1.0, budget - (time.time() - t0))))
                 except StopIteration:
                     break
                 except mp.TimeoutError:
